@@ -33,6 +33,27 @@ Theorem C06_add_wf : forall w a b, wfm a -> wfm (add w a b).
 Proof. exact wf_add. Qed.
 Print Assumptions C06_add_pointwise.
 
+(* any number of Adds into one accumulator: the pointwise sum of the accumulator
+   and all operands; in particular the result does not depend on the order of
+   the operands.  (The model is pure: that Add leaves its ARGUMENT object
+   untouched cannot even be stated here - that part of the property is checked
+   on the implementation by the op-sequence correspondence with shared
+   operand objects, CSeq.) *)
+Theorem C06_add_sequence : forall xs a p n, Forall wfm xs ->
+  qty (add_seq Big a xs) p n = qty a p n + qsum xs p n.
+Proof. intros xs a p n F. apply qty_add_seq. exact F. Qed.
+Theorem C06_add_sequence_order : forall xs ys a, Forall wfm xs -> wfm a -> Permutation xs ys ->
+  compare (add_seq Big a xs) (add_seq Big a ys) = true.
+Proof.
+  intros xs ys a F Wa P.
+  assert (F' : Forall wfm ys) by (rewrite Forall_forall in *; intros y Hy; apply F; eapply Permutation_in; [apply Permutation_sym; exact P|exact Hy]).
+  assert (Wseq : forall l, wfm (add_seq Big a l)).
+  { intros l. unfold add_seq. revert a Wa. induction l as [|x r IH]; intros a Wa; cbn [fold_left]; [exact Wa|]. apply IH. apply wf_add. exact Wa. }
+  apply compare_iff; auto. intros p n. rewrite !qty_add_seq by assumption. f_equal.
+  clear - P. induction P; cbn [qsum fold_right]; try fold (qsum l p n); try fold (qsum l' p n); lia.
+Qed.
+Print Assumptions C06_add_sequence_order.
+
 Theorem C06_add_commutative : forall a b, wfm a -> wfm b ->
   compare (add Big a b) (add Big b a) = true.
 Proof.
